@@ -51,7 +51,7 @@ namespace detail
 		{
 			floatType const Max = static_cast<floatType>(std::numeric_limits<T>::max()) + static_cast<floatType>(0.5);
 			vec<L, floatType, Q> const Scaled(v * Max);
-			vec<L, T, Q> const Result(Scaled - static_cast<floatType>(0.5));
+			vec<L, T, Q> const Result(floor(Scaled));
 			return Result;
 		}
 	};
